@@ -415,7 +415,7 @@ impl Prop for Finds {
     fn floors(&self) -> Vec<(&'static str, u64, u64)> {
         match self.0 {
             Which::Prefix => vec![("prefix len 1", 500, 5000), ("prefix len 2", 500, 5000), ("prefix len >3", 2000, 20000), ("word with stem < len", 200, 2000), ("function word", 20, 200), ("word > 20 letters", 20, 200), ("titles with more than 20 words", 100, 1000)],
-            Which::Typo => vec![("substitution at first", 50, 500), ("insertion at first", 50, 500), ("deletion at first", 50, 500), ("transposition at first", 50, 500), ("transposition at last", 50, 500), ("len 5", 200, 2000), ("len >20", 100, 1000), ("titles with more than 20 words", 30, 300), ("exhaustive-letter edits", 50000, 500000), ("exhaustive-letter words that are function words", 150, 150)],
+            Which::Typo => vec![("substitution at first", 50, 500), ("insertion at first", 50, 500), ("deletion at first", 50, 500), ("transposition at first", 50, 500), ("transposition at last", 50, 500), ("len 5", 200, 2000), ("len >20", 100, 1000), ("titles with more than 20 words", 30, 300), ("exhaustive-letter edits", 30000, 250000), ("exhaustive-letter words that are function words", 150, 150)],
             Which::Whole => vec![("whole title", 1000, 10000), ("first last", 300, 3000), ("last first", 300, 3000), ("title with function word", 50, 500), ("titles with more than 20 words", 200, 2000)],
             Which::SplitJoin => vec![("split", 2000, 20000), ("split after first letter", 200, 2000), ("join", 100, 1000), ("join with 1-letter first word", 3, 30), ("titles with more than 20 words", 100, 1000)],
         }
